@@ -1,6 +1,7 @@
 import CelmaVerif.Lemmas.RulesArgs
 import CelmaVerif.Lemmas.RulesPending
 import CelmaVerif.Lemmas.RulesGlobals
+import CelmaVerif.Lemmas.RulesValueC
 /-
   Rules layer, part 5: soundness — an abstract command line that the handler accepts obeys every
   declared rule.
@@ -15,16 +16,32 @@ structure RulesInv (cfg : Cfg) (inits : List DVal) (h : HState) : Prop where
   values : ObeysValues cfg h.uses
   pend   : PendInv cfg h
   glob   : GlobInv cfg h
+  vals   : ValInv cfg inits h
+
+/-- the value constraints at the final check: every differ / disjoint constraint whose end condition
+    passed is met -/
+theorem value_constraints_sound_aux {cfg : Cfg} (wf : cfg.WellFormed) {inits : List DVal}
+    (hin : cfg.args.length ≤ inits.length) {h : HState} (f : Frame cfg h) (vi : ValInv cfg inits h)
+    (e : checkGlobals cfg.args h.args cfg.globals h.globals = .ok ()) :
+    ∀ g ∈ cfg.globals, (g.kind = .differ → DifferMet cfg inits h.uses g.keys) ∧
+      (g.kind = .disjoint → DisjointMet cfg inits h.uses g.keys) := by
+  intro g hg
+  obtain ⟨n, hn, hgn⟩ := List.getElem_of_mem hg
+  have hg' : cfg.globals[n]? = some g := by rw [List.getElem?_eq_getElem hn, hgn]
+  have hn' : n < h.globals.length := by rw [f.globLen]; exact hn
+  have hs' : h.globals[n]? = some h.globals[n] := List.getElem?_eq_getElem hn'
+  have hend := checkGlobals_get _ _ _ _ e n g _ hg' hs'
+  exact ⟨fun hk => differ_sound wf vi hg hk hend, fun hk => disjoint_sound wf hin vi hg hk hend⟩
 
 theorem rulesInv_init (cfg : Cfg) (inits : List DVal) (hin : cfg.args.length ≤ inits.length) :
     RulesInv cfg inits (cfg.initState inits) :=
   ⟨frame_init cfg inits hin, argInv_init cfg inits hin, by intro u hu; simp [Cfg.initState] at hu,
-    pendInv_init cfg inits, globInv_init cfg inits⟩
+    pendInv_init cfg inits, globInv_init cfg inits, valInv_init cfg inits hin⟩
 
 theorem rulesInv_step {cfg : Cfg} (wf : cfg.WellFormed) {inits : List DVal} {h : HState} {u : Use} {h' : HState}
     (a : RulesInv cfg inits h) (e : applyUse cfg h u = .ok h') : RulesInv cfg inits h' :=
   ⟨frame_step a.frame e, argInv_step a.frame a.args e, values_step a.values e, pendInv_step wf.disjoint wf.argKeys a.pend e,
-    globInv_step a.glob e⟩
+    globInv_step a.glob e, valInv_step a.frame a.vals e⟩
 
 /-- the invariants hold after any sequence of uses from the initial state -/
 theorem rulesInv_applyUses {cfg : Cfg} (wf : cfg.WellFormed) {inits : List DVal}
@@ -47,7 +64,8 @@ theorem rules_sound {cfg : Cfg} (wf : cfg.WellFormed) {inits : List DVal}
   obtain ⟨c1, c2, c3, _⟩ := endChecks_ok he
   subst hus
   exact ⟨mandatory_sound inv.args c1, inv.values, cardinality_sound wf.cardSane inv.args c1,
-    inv.pend.hist, requires_sound inv.pend c2, globals_sound inv.frame inv.glob c3⟩
+    inv.pend.hist, requires_sound inv.pend c2,
+    globals_sound (state_globals_sound inv.frame inv.glob c3) (value_constraints_sound_aux wf hin inv.frame inv.vals c3)⟩
 
 /-! ### the single rules under the hypotheses each of them needs -/
 
@@ -61,12 +79,12 @@ theorem values_sound {cfg : Cfg} {inits : List DVal} {us : List Use} {h : HState
   simp only [Cfg.initState, List.nil_append] at hus
   rw [← hus]; exact this
 
-/-- rules "mandatory", "cardinality", "handler constraints": local to one argument resp. one
-    constraint object, no hypothesis on the keys -/
+/-- rules "mandatory", "cardinality", "handler constraints" (all-of / any-of / one-of): local to one
+    argument resp. one constraint object, no hypothesis on the keys -/
 theorem local_rules_sound {cfg : Cfg} {inits : List DVal} (hin : cfg.args.length ≤ inits.length)
     {us : List Use} {h : HState} (e : evalUses cfg (cfg.initState inits) us = .ok h) :
     ObeysMandatory cfg inits us ∧ ((∀ d ∈ cfg.args, d.card.Sane) → ObeysCardinality cfg us) ∧
-    ObeysGlobals cfg us := by
+    ObeysStateGlobals cfg us := by
   obtain ⟨h1, ha, he⟩ := evalUses_ok e
   obtain ⟨c1, _, c3, _⟩ := endChecks_ok he
   have inv : Frame cfg h1 ∧ ArgInv cfg inits h1 ∧ GlobInv cfg h1 :=
@@ -76,7 +94,7 @@ theorem local_rules_sound {cfg : Cfg} {inits : List DVal} (hin : cfg.args.length
   have hus := applyUses_uses us _ _ ha
   simp only [Cfg.initState, List.nil_append] at hus
   subst hus
-  exact ⟨mandatory_sound inv.2.1 c1, fun hs => cardinality_sound hs inv.2.1 c1, globals_sound inv.1 inv.2.2 c3⟩
+  exact ⟨mandatory_sound inv.2.1 c1, fun hs => cardinality_sound hs inv.2.1 c1, state_globals_sound inv.1 inv.2.2 c3⟩
 
 /-- rules "excludes" and "requires": need the keys of the table to be pairwise distinct and the
     constraint keys to be spellings of table keys -/
@@ -93,5 +111,18 @@ theorem constraints_sound {cfg : Cfg} (hdis : Disjoint cfg.table)
   simp only [Cfg.initState, List.nil_append] at hus
   subst hus
   exact ⟨inv.hist, requires_sound inv c2⟩
+
+/-- the value constraints differ / disjoint alone (they are resolved through the keys: the
+    configuration must be well formed) -/
+theorem value_constraints_sound {cfg : Cfg} (wf : cfg.WellFormed) {inits : List DVal}
+    (hin : cfg.args.length ≤ inits.length) {us : List Use} {h : HState}
+    (e : evalUses cfg (cfg.initState inits) us = .ok h) :
+    ∀ g ∈ cfg.globals, (g.kind = .differ → DifferMet cfg inits us g.keys) ∧
+      (g.kind = .disjoint → DisjointMet cfg inits us g.keys) := by
+  obtain ⟨h1, ha, he⟩ := evalUses_ok e
+  obtain ⟨inv, hus⟩ := rulesInv_applyUses wf hin ha
+  obtain ⟨_, _, c3, _⟩ := endChecks_ok he
+  subst hus
+  exact value_constraints_sound_aux wf hin inv.frame inv.vals c3
 
 end CelmaVerif.ProgArgs
